@@ -29,7 +29,7 @@ BaseBody(cfgC) ==
              Stmt("leaf-list", "ll", << Stmt("type", "string", <<>>) >>) >>),
      Stmt("container", "e", << Uses("", "g") >>),
      \* ordinary data nodes that happen to be CALLED input and output (not the input / output of an operation)
-     Stmt("container", "input", << Leaf("output"), Stmt("container", "output", << Leaf("gain") >>) >>),
+     Stmt("container", "input", << Leaf("level"), Stmt("container", "output", << Leaf("gain") >>) >>),
      Stmt("list", "li", << Stmt("key", "k", <<>>), Leaf("k") >>),
      Stmt("rpc", "r", << Stmt("input", "input", << Leaf("i"), Stmt("choice", "rc", << Leaf("rs") >>) >>),
                          Stmt("output", "output", << Leaf("o") >>) >>),
